@@ -1,26 +1,393 @@
 /-
-C15 — property theorems for split_clients generation (`NGF.SplitClients`, float64 model `NGF.F64`).
+C15 — property theorems for split_clients generation.
+PRIMARY model: `NGF.SplitClients.intCents`/`shares`/`distributions` — the integer algorithm of
+createSplitClientDistributions since commit 286dc83. The property at full strength (`Holds`) is proved for EVERY
+weight vector with a positive total (`holds`; no bound on the number of backends or on the weights is needed),
+and NGINX reads every printed share as exactly its hundredths (`shares_read_by_nginx`).
+PRE-FIX variant (`floatShares`, float64 model `NGF.F64`; theorems `prefix_*`): what the code did before the fix,
+with the full float error analysis (`NGF.Proofs.SplitClients`), the two witnesses on which `Holds` FAILED
+(`prefix_not_holds_*`, reproduced on the real generator before the fix) and the `_partial` theorem
+(`prefix_holds_of_last_weight_pos`). It is kept so that a regression to the float algorithm is recognised and
+reported with the old signatures.
 -/
-import NGF.Model.SplitClients
+import NGF.Proofs.SplitClients
+import NGF.Proofs.SplitClientsInt
+import NGF.Proofs.SplitClientsPrint
 import NGF.Generated.SplitFacts
 
 namespace NGF.SplitClients
 open NGF.F64
 
-/-! ### witnesses: the property is FALSE for the current algorithm -/
+/-! ### the property -/
 
-/-- weights 83,42,0: the float remainder is −2⁻⁴⁷ and prints `-0.00`, which the template's
-`eq "0.00"` test does not comment out (NGINX rejects the file) -/
-theorem witness_last_share_negative_zero :
-    (shares [83, 42, 0]).map Dec2.render = ["66.40", "33.60", "-0.00"] ∧
-    (Pct.dec (shares [83, 42, 0])[2]!).commentedOut = false := by decide +kernel
+/-- The property of C15 for one rule (total weight > 0), on the list of printed shares `ds`:
+non-negative, sum exactly 100, zero weight ⇒ the entry is `0.00` (commented out by the template),
+every backend within its budget: at most 0.01 below and at most 0.01·(n−1) above `100·w/T`. -/
+structure Holds (ws : List Nat) (ds : List Dec2) : Prop where
+  len : ds.length = ws.length
+  nonneg : ∀ d ∈ ds, d.neg = false
+  sum : (ds.map (·.cents)).sum = 10000
+  zero : ∀ (i : Nat) (hi : i < ws.length), ws[i] = 0 → ds[i]? = some ⟨false, 0⟩
+  tol : ∀ (i : Nat) (hi : i < ws.length), ∃ d, ds[i]? = some d ∧
+    10000 * ws[i] ≤ (d.cents + 1) * ws.sum ∧ d.cents * ws.sum ≤ 10000 * ws[i] + (ws.length - 1) * ws.sum
 
-/-- weights 1,1,1,0: the zero-weight last backend receives the rounding remainder 0.01% -/
-theorem witness_zero_weight_last_gets_remainder :
-    (shares [1, 1, 1, 0]).map Dec2.render = ["33.33", "33.33", "33.33", "0.01"] := by decide +kernel
+/-- MAIN THEOREM: the integer algorithm satisfies the property for every weight vector with positive total. -/
+theorem holds (ws : List Nat) (hpos : 0 < ws.sum) : Holds ws (shares ws) := by
+  obtain ⟨h1, h2, h3⟩ := intCents_main ws hpos
+  have hs : shares ws = (intCents ws).map (fun F => (⟨false, F⟩ : Dec2)) := rfl
+  rw [hs]
+  refine ⟨by simp [h1], ?_, by rw [cents_sum_map]; exact h2, ?_, ?_⟩
+  · intro d hd
+    simp only [List.mem_map] at hd
+    obtain ⟨c, _, rfl⟩ := hd
+    rfl
+  · intro i hi hz
+    obtain ⟨c, g1, g2, _⟩ := h3 i hi
+    have := g2 hz
+    subst this
+    simp [g1]
+  · intro i hi
+    obtain ⟨c, g1, _, g3, g4⟩ := h3 i hi
+    exact ⟨⟨false, c⟩, by simp [g1], Nat.le_of_lt g3, g4⟩
 
-/-- 23/125 = 18.40% exactly, float64 floor gives 18.39 (still within the 0.01 tolerance) -/
-theorem witness_float_floor_one_low :
-    (fmt2 (percentOf 23 125)).render = "18.39" := by decide +kernel
+/-- every backend: share printed without sign, at most 0.01 below and 0.01·(n−1) above `100·w/T`; strictly
+more than `100·w/T − 0.01` -/
+theorem share_within_tolerance (ws : List Nat) (hpos : 0 < ws.sum) (i : Nat) (hi : i < ws.length) :
+    ∃ c : Nat, (shares ws)[i]? = some ⟨false, c⟩ ∧ (ws[i] = 0 → c = 0) ∧
+      10000 * ws[i] < (c + 1) * ws.sum ∧ c * ws.sum ≤ 10000 * ws[i] + (ws.length - 1) * ws.sum := by
+  obtain ⟨c, g1, g2, g3, g4⟩ := (intCents_main ws hpos).2.2 i hi
+  exact ⟨c, by simp [shares, centsDec, g1], g2, g3, g4⟩
+
+/-- the shares sum to exactly 100 -/
+theorem shares_sum_exactly_100 (ws : List Nat) (hpos : 0 < ws.sum) :
+    ((shares ws).map (·.cents)).sum = 10000 := (holds ws hpos).sum
+
+/-- a zero-weight backend, at ANY position, is printed `0.00`, which the template comments out: no traffic -/
+theorem zero_weight_commented_out (ws : List Nat) (hpos : 0 < ws.sum) (i : Nat) (hi : i < ws.length)
+    (hz : ws[i] = 0) : ∃ d, (shares ws)[i]? = some d ∧ (Pct.dec d).commentedOut = true :=
+  ⟨_, (holds ws hpos).zero i hi hz, (commentedOut_iff _).mpr rfl⟩
+
+/-- an entry that is not commented out has a positive share (NGINX rejects a percentage of 0) -/
+theorem active_share_positive (ws : List Nat) (d : Dec2) (hd : d ∈ shares ws)
+    (hc : (Pct.dec d).commentedOut = false) : d.neg = false ∧ 1 ≤ d.cents := by
+  simp only [shares, List.mem_map] at hd
+  obtain ⟨c, _, rfl⟩ := hd
+  refine ⟨rfl, ?_⟩
+  by_cases h0 : c = 0
+  · subst h0
+    have := (commentedOut_iff (centsDec 0)).mpr rfl
+    rw [this] at hc; exact absurd hc (by simp)
+  · exact Nat.pos_of_ne_zero h0
+
+/-- every printed share is read by NGINX (`ngx_atofp(…,2)`) as exactly its hundredths -/
+theorem shares_read_by_nginx (ws : List Nat) (d : Dec2) (hd : d ∈ shares ws) :
+    SplitClientsJudge.atofp2 d.chars = some d.cents := by
+  simp only [shares, List.mem_map] at hd
+  obtain ⟨c, _, rfl⟩ := hd
+  exact SplitClientsJudge.atofp2_chars _ rfl
+
+/-- the template's `eq $d.Percent "0.00"` comments out exactly the value `+0.00` (so not `-0.00`) -/
+theorem commented_out_iff_plus_zero (d : Dec2) : (Pct.dec d).commentedOut = true ↔ d = ⟨false, 0⟩ :=
+  commentedOut_iff d
+
+/-- printed shares are two-decimal strings: NGINX (`ngx_atofp(…,2)`) reads an unsigned one as exactly its
+hundredths, and rejects a signed one -/
+theorem printed_share_read_by_nginx (d : Dec2) :
+    (d.neg = false → SplitClientsJudge.atofp2 d.chars = some d.cents) ∧
+    (d.neg = true → SplitClientsJudge.atofp2 d.chars = none) :=
+  ⟨SplitClientsJudge.atofp2_chars d, SplitClientsJudge.atofp2_neg d⟩
+
+/-- no int64 overflow in `int64(b.Weight) * hundredPercent` and no int32 wrap of the total -/
+theorem total_no_wrap (ws : List Nat) (h : Admissible ws) :
+    ws.sum ≤ 16000000 ∧ 16000000 < 2 ^ 31 ∧ ∀ w ∈ ws, 10000 * w < 2 ^ 63 := by
+  have := sum_le_length_mul h.range
+  have : ws.length * 1000000 ≤ 16 * 1000000 := Nat.mul_le_mul_right _ h.sixteen
+  exact ⟨by omega, by decide, fun w hw => by have := h.range w hw; omega⟩
+
+/-- the algorithm on the two vectors on which the pre-fix code failed -/
+theorem shares_on_old_witnesses :
+    (shares [83, 42, 0]).map Dec2.render = ["66.40", "33.60", "0.00"] ∧
+    (shares [83, 42, 0]).map (fun d => (Pct.dec d).commentedOut) = [false, false, true] ∧
+    (shares [1, 1, 1, 0]).map Dec2.render = ["33.33", "33.33", "33.34", "0.00"] ∧
+    (shares [23, 102]).map Dec2.render = ["18.40", "81.60"] := by
+  decide +kernel
+
+/-! ### validity, the 500 upstream, the all-zero case, weight defaulting -/
+
+/-- invalid backends keep their share: percentages do not depend on validity or upstream names, and the
+target of an invalid backend is the upstream that answers 500 -/
+theorem invalid_keeps_share_and_answers_500 (bs : List Backend) (h2 : 2 ≤ bs.length) (hT : total bs ≠ 0) :
+    ∃ ds, distributions bs = some ds ∧
+      ds.map (·.pct) = (shares (bs.map (·.weight))).map Pct.dec ∧
+      ds.map (·.value) = bs.map (fun b => if b.valid then b.upstream else invalidBackendRef) := by
+  have hlen : ¬ bs.length ≤ 1 := by omega
+  have hpos : 0 < (bs.map (·.weight)).sum := by rw [← total_eq_sum]; omega
+  have hl := (intCents_main (bs.map (·.weight)) hpos).1
+  have sp := mkDists_spec bs (intCents (bs.map (·.weight))) (by rw [hl]; simp)
+  refine ⟨mkDists bs (intCents (bs.map (·.weight))), by simp [distributions, hlen, hT], ?_, ?_⟩
+  · rw [sp.2]; rfl
+  · rw [sp.1]; rfl
+
+/-- all weights zero ⇒ a single `100%` entry to the 500 upstream -/
+theorem all_zero_gives_500 (bs : List Backend) (h2 : 2 ≤ bs.length) (hT : total bs = 0) :
+    distributions bs = some [⟨.hundred, invalidBackendRef⟩] ∧
+    Dist.line ⟨.hundred, invalidBackendRef⟩ = "\n    100% invalid-backend-ref;" := by
+  have hlen : ¬ bs.length ≤ 1 := by omega
+  exact ⟨by simp [distributions, hlen, hT], by decide +kernel⟩
+
+/-- weights that reach the generator are in `[0, maxWeight]` (createBackendRef: absent ⇒ 1, out of range ⇒ 0),
+with `maxWeight` the constant regenerated from validateWeight -/
+theorem effective_weight_in_range (o : Option Int) :
+    0 ≤ effectiveWeight o ∧ effectiveWeight o ≤ (Generated.SplitClients.maxWeight : Int) ∧
+    (o = none → effectiveWeight o = 1) ∧
+    (∀ w, o = some w → 0 ≤ w → w ≤ 1000000 → effectiveWeight o = w) := by
+  have hm : (Generated.SplitClients.maxWeight : Int) = 1000000 := rfl
+  rw [hm]
+  cases o with
+  | none => simp [effectiveWeight]
+  | some w =>
+    simp only [effectiveWeight]
+    split <;> simp <;> omega
+
+/-! ### non-vacuity -/
+
+example : Admissible [1, 1, 1] := ⟨by decide, by decide, by decide, by decide⟩
+example : Admissible [1000000, 999983, 0, 7, 1000000, 1, 1, 1, 1, 1, 1, 1, 1, 1, 1, 1000000] :=
+  ⟨by decide, by decide, by decide, by decide⟩
+example : Holds [2, 1] (shares [2, 1]) := holds [2, 1] (by decide)
+example : (shares [2, 1]).map Dec2.render = ["66.66", "33.34"] := by decide +kernel
+example : ∃ bs : List Backend, 2 ≤ bs.length ∧ total bs = 0 := ⟨[⟨"a", 0, true⟩, ⟨"b", 0, false⟩], by decide, rfl⟩
+
+/-! ### the model is the code: facts regenerated from /repo on every run -/
+
+/-- format verb, constants, no float64 in the generator, `percentOf` (pre-fix, tests only) unchanged, weight range and defaulting -/
+theorem facts_pinned :
+    Generated.SplitClients.percentOfBody =
+      ["p := (float64(weight) * 100) / float64(totalWeight)", "return math.Floor(p*100) / 100"] ∧
+    Generated.SplitClients.percentOfParams = ["weight int32", "totalWeight int32"] ∧
+    Generated.SplitClients.percentOfResult = "float64" ∧
+    Generated.SplitClients.sprintfCalls = ["%d.%02d <- cents[i] / 100, cents[i] % 100"] ∧
+    Generated.SplitClients.percentOfCallsInGenerator = 0 ∧
+    Generated.SplitClients.floatMentionsInDistributions = 0 ∧
+    Generated.SplitClients.distributionsConsts = ["hundredPercent = int64(10000)"] ∧
+    Generated.SplitClients.templateEqLiterals = ["0.00"] ∧
+    Generated.SplitClients.invalidBackendRef = invalidBackendRef ∧
+    Generated.SplitClients.nginx500Server = "unix:/var/run/nginx/nginx-500-server.sock" ∧
+    Generated.SplitClients.minWeight = 0 ∧ Generated.SplitClients.maxWeight = 1000000 ∧
+    Generated.SplitClients.backendRefLiterals = Generated.SplitClients.backendRefLiteralsWithWeight ∧
+    Generated.SplitClients.weightDefaulting =
+      ["weight := int32(1)",
+       "if ref.Weight != nil { if validateWeight(*ref.Weight) != nil { weight = 0 } else { weight = *ref.Weight } }"] ∧
+    Generated.SplitClients.validateWeightBody =
+      ["if weight < minWeight || weight > maxWeight { return fmt.Errorf(\"must be in the range [%d, %d]\", minWeight, maxWeight) }",
+       "return nil"] := by
+  repeat' constructor
+
+/-- the statements of createSplitClientDistributions and of the helpers, as modelled by `intCents`/`mkDists`/`value`/`backendGroupName` -/
+theorem facts_algorithm_pinned :
+    Generated.SplitClients.distributionsBody =
+      ["if !backendGroupNeedsSplit(group) { return nil }",
+       "backends := group.Backends",
+       "totalWeight := int32(0)",
+       "for _, b := range backends { totalWeight += b.Weight }",
+       "if totalWeight == 0 { return []http.SplitClientDistribution{ { Percent: \"100\", Value: invalidBackendRef, }, } }",
+       "const hundredPercent = int64(10000)",
+       "cents := make([]int64, len(backends))",
+       "remaining := hundredPercent",
+       "lastNonZero := 0",
+       "for i, b := range backends { cents[i] = int64(b.Weight) * hundredPercent / int64(totalWeight) remaining -= cents[i] if b.Weight != 0 { lastNonZero = i } }",
+       "cents[lastNonZero] += remaining",
+       "distributions := make([]http.SplitClientDistribution, 0, len(backends))",
+       "for i, b := range backends { distributions = append(distributions, http.SplitClientDistribution{ Percent: fmt.Sprintf(\"%d.%02d\", cents[i]/100, cents[i]%100), Value: getSplitClientValue(b), }) }",
+       "return distributions"] ∧
+    Generated.SplitClients.getSplitClientValueBody = ["if b.Valid { return b.UpstreamName }", "return invalidBackendRef"] ∧
+    Generated.SplitClients.needsSplitBody = ["return len(group.Backends) > 1"] ∧
+    Generated.SplitClients.backendGroupNameBody =
+      ["switch len(group.Backends) { case 0: return invalidBackendRef case 1: b := group.Backends[0] if b.Weight == 0 || !b.Valid { return invalidBackendRef } return b.UpstreamName default: return group.Name() }"] ∧
+    Generated.SplitClients.safeVariableNameBody = ["return strings.ReplaceAll(s, \"-\", \"_\")"] ∧
+    Generated.SplitClients.groupNameBody =
+      ["return fmt.Sprintf(\"group_%s__%s_rule%d\", bg.Source.Namespace, bg.Source.Name, bg.RuleIdx)"] ∧
+    Generated.SplitClients.createProxyPassBody =
+      ["var requestURI string",
+       "if !grpc { if filter == nil || filter.Path == nil { requestURI = \"$request_uri\" } }",
+       "backendName := backendGroupName(backendGroup)",
+       "if backendGroupNeedsSplit(backendGroup) { return protocol + \"://$\" + convertStringToSafeVariableName(backendName) + requestURI }",
+       "return protocol + \"://\" + backendName + requestURI"] ∧
+    Generated.SplitClients.invalidUpstreamBody =
+      ["return http.Upstream{ Name: invalidBackendRef, Servers: []http.UpstreamServer{ { Address: nginx500Server, }, }, }"] := by
+  repeat' constructor
+
+/-- the template text, and the model's rendering of a block agrees with it on a concrete instance -/
+theorem facts_template_pinned :
+    Generated.SplitClients.templateText =
+      "\n{{ range $sc := . }}\nsplit_clients $request_id ${{ $sc.VariableName }} {\n    {{- range $d := $sc.Distributions }}\n        {{- if eq $d.Percent \"0.00\" }}\n    # {{ $d.Percent }}% {{ $d.Value }};\n        {{- else }}\n    {{ $d.Percent }}% {{ $d.Value }};\n        {{- end }}\n    {{- end }}\n}\n{{ end }}\n" ∧
+    Generated.SplitClients.templateActions =
+      ["range $sc := .", "$sc.VariableName", "range $d := $sc.Distributions", "if eq $d.Percent \"0.00\"",
+       "$d.Percent", "$d.Value", "$d.Percent", "$d.Value"] ∧
+    block "v" [⟨.dec ⟨false, 0⟩, "a"⟩, ⟨.dec ⟨false, 10000⟩, "b"⟩] =
+      "\nsplit_clients $request_id $v {\n    # 0.00% a;\n    100.00% b;\n}\n" := by
+  refine ⟨rfl, rfl, ?_⟩
+  decide +kernel
+
+
+/-! ## PRE-FIX variant (before commit 286dc83): float64 floor-then-subtract -/
+
+/-! ### the binary64 model -/
+
+/-- `binade a = 2^⌊log₂ a⌋`: the rounding below really has 53 significant bits -/
+theorem f64_binade (a : Rat) (ha : 0 < a) : 0 < binade a ∧ binade a ≤ a ∧ a < 2 * binade a :=
+  binade_spec a ha
+
+/-- `rn_rel_err`: one rounding errs by at most `|q|·2⁻⁵³` -/
+theorem f64_rn_rel_err (q : Rat) :
+    rn q - q ≤ F64.abs q / 9007199254740992 ∧ q - rn q ≤ F64.abs q / 9007199254740992 := rn_err q
+
+/-- `rn_exact_on_repr` for integers: `float64(n)` is exact below 2⁵³ -/
+theorem f64_rn_exact_int (n : Nat) (h : n < 2 ^ 53) : rn (n : Rat) = (n : Rat) := rn_natCast h
+
+
+
+/-- `floor_hundredths`: the non-last share is `F/100` with `F = ⌊10⁴w/T⌋`, or one less when `10⁴w/T` is an
+integer (e.g. 23/125 ↦ 18.39) -/
+theorem prefix_floor_hundredths (w T : Nat) (hT : 0 < T) (hT' : T ≤ 16000000) (hw : w ≤ T) :
+    ∃ F : Nat, percentOf w T = rn ((F : Rat) / 100) ∧ fmt2 (percentOf w T) = ⟨false, F⟩ ∧
+      (F = 10000 * w / T ∨ ((10000 * w) % T = 0 ∧ F + 1 = 10000 * w / T)) := by
+  obtain ⟨F, h1, h2⟩ := percentOf_floor w T hT hT' hw
+  have hb := floor_bracket hT h2
+  have hF : F ≤ 10000 := by
+    have : F * T ≤ 10000 * T := Nat.le_trans hb.1 (by omega)
+    exact Nat.le_of_mul_le_mul_right this hT
+  exact ⟨F, h1, by rw [h1]; exact (fmt2_cents F hF).1, h2⟩
+
+/-- Everything `createSplitClientDistributions` prints (total > 0): non-last backends get
+`F/100` with `F·T ≤ 10⁴·w ≤ (F+1)·T` (`AllFloors`: within 0.01 below the exact share, zero weight ⇒ 0.00),
+the last one gets exactly `100 − ΣF/100` (float error never reaches the second decimal), which is at least
+its exact share and exceeds it by at most 0.01·(n−1); its sign can be wrong only when it prints as 0.00. -/
+theorem prefix_shares_characterised (ws : List Nat) (h : Admissible ws) :
+    ∃ (Fs : List Nat) (last : Dec2),
+      floatShares ws = Fs.map (fun F => (⟨false, F⟩ : Dec2)) ++ [last] ∧
+      AllFloors ws.sum ws.dropLast Fs ∧
+      last.cents + Fs.sum = 10000 ∧
+      (1 ≤ last.cents → last.neg = false) ∧
+      10000 * ws.getLast h.ne_nil ≤ last.cents * ws.sum ∧
+      last.cents * ws.sum ≤ 10000 * ws.getLast h.ne_nil + (ws.length - 1) * ws.sum :=
+  floatShares_main ws h
+
+/-- the floatShares sum to exactly 100 (as numbers; a `-0.00` counts as 0) -/
+theorem prefix_shares_sum_exactly_100 (ws : List Nat) (h : Admissible ws) :
+    ((floatShares ws).map (·.cents)).sum = 10000 := by
+  obtain ⟨Fs, last, e, _, hsum, _⟩ := floatShares_main ws h
+  rw [e, List.map_append, List.sum_append, cents_sum_map]; simp; omega
+
+/-- tolerance for every non-last backend: `0 ≤ 100·w/T − share ≤ 0.01`, and the share is printed without sign -/
+theorem prefix_nonlast_share_within_tolerance (ws : List Nat) (h : Admissible ws) (i : Nat) (hi : i + 1 < ws.length) :
+    ∃ F : Nat, (floatShares ws)[i]? = some ⟨false, F⟩ ∧
+      F * ws.sum ≤ 10000 * ws[i] ∧ 10000 * ws[i] ≤ (F + 1) * ws.sum ∧ (ws[i] = 0 → F = 0) := by
+  obtain ⟨Fs, last, e, hF, _⟩ := floatShares_main ws h
+  obtain ⟨_, _, s3⟩ := allFloors_sum hF
+  obtain ⟨F, g1, g2⟩ := allFloors_get hF i (by simp; omega)
+  have : ws.dropLast[i]'(by simp; omega) = ws[i] := by simp
+  rw [this] at g2
+  refine ⟨F, ?_, g2.1, g2.2.1, g2.2.2⟩
+  rw [e, getElem?_append_single]
+  have hlt : i < Fs.length := by rw [s3]; simp; omega
+  simp only [List.length_map, hlt, if_true, List.getElem?_map, g1, Option.map_some]
+
+/-- a zero-weight backend that is not the last one is printed `0.00`, which the template comments out -/
+theorem prefix_nonlast_zero_weight_commented_out (ws : List Nat) (h : Admissible ws) (i : Nat)
+    (hi : i + 1 < ws.length) (hz : ws[i] = 0) :
+    ∃ d, (floatShares ws)[i]? = some d ∧ (Pct.dec d).commentedOut = true := by
+  obtain ⟨F, h1, _, _, h4⟩ := prefix_nonlast_share_within_tolerance ws h i hi
+  have := h4 hz
+  subst this
+  exact ⟨_, h1, (commentedOut_iff _).mpr rfl⟩
+
+/-- `_partial` (pre-fix): the float algorithm satisfies the property whenever the LAST backend has a non-zero weight -/
+theorem prefix_holds_of_last_weight_pos (ws : List Nat) (h : Admissible ws) (hl : 1 ≤ ws.getLast h.ne_nil) :
+    Holds ws (floatShares ws) := by
+  obtain ⟨Fs, last, e, hF, hsum, hneg, hl1, hl2⟩ := floatShares_main ws h
+  obtain ⟨s1, s2, s3⟩ := allFloors_sum hF
+  have hlen : Fs.length = ws.length - 1 := by rw [s3]; simp
+  have htwo := h.two
+  have hc1 : 1 ≤ last.cents := by
+    have : 10000 ≤ last.cents * ws.sum := Nat.le_trans (by omega) hl1
+    by_cases h0 : last.cents = 0
+    · rw [h0] at this; omega
+    · omega
+  refine ⟨?_, ?_, ?_, ?_, ?_⟩
+  · rw [e]; simp; omega
+  · intro d hd
+    rw [e] at hd
+    simp only [List.mem_append, List.mem_map, List.mem_singleton] at hd
+    rcases hd with ⟨F, _, rfl⟩ | rfl
+    · rfl
+    · exact hneg hc1
+  · rw [e, List.map_append, List.sum_append, cents_sum_map]; simp; omega
+  · intro i hi hz
+    rw [e, getElem?_append_single]
+    simp only [List.length_map]
+    by_cases hlt : i < Fs.length
+    · simp only [hlt, if_true]
+      obtain ⟨F, g1, g2⟩ := allFloors_get hF i (by simp; omega)
+      have : ws.dropLast[i]'(by simp; omega) = ws[i] := by simp
+      rw [this] at g2
+      have := g2.2.2 hz
+      subst this
+      simp [g1]
+    · have : i = ws.length - 1 := by omega
+      have hw : ws[i] = ws.getLast h.ne_nil := by
+        rw [List.getLast_eq_getElem]; congr 1
+      omega
+  · intro i hi
+    rw [e, getElem?_append_single]
+    simp only [List.length_map]
+    by_cases hlt : i < Fs.length
+    · simp only [hlt, if_true]
+      obtain ⟨F, g1, g2⟩ := allFloors_get hF i (by simp; omega)
+      have : ws.dropLast[i]'(by simp; omega) = ws[i] := by simp
+      rw [this] at g2
+      refine ⟨⟨false, F⟩, by simp [g1], g2.2.1, ?_⟩
+      have := g2.1
+      show F * ws.sum ≤ _
+      omega
+    · have hi' : i = Fs.length := by omega
+      have hw : ws[i] = ws.getLast h.ne_nil := by
+        rw [List.getLast_eq_getElem]; congr 1; omega
+      subst hi'
+      simp only [Nat.lt_irrefl, if_false, if_true]
+      refine ⟨last, rfl, ?_, ?_⟩
+      · rw [hw, Nat.add_mul]; omega
+      · rw [hw]; exact hl2
+
+/-- witness 1 (reproduced on the real generator): weights 83,42,0 print `66.40 33.60 -0.00`; the last entry is
+negative (remainder −2⁻⁴⁷), is not commented out, and NGINX rejects it -/
+theorem prefix_witness_last_share_negative_zero :
+    floatShares [83, 42, 0] = [⟨false, 6640⟩, ⟨false, 3360⟩, ⟨true, 0⟩] ∧
+    (floatShares [83, 42, 0]).map Dec2.render = ["66.40", "33.60", "-0.00"] ∧
+    (floatShares [83, 42, 0]).map (fun d => (Pct.dec d).commentedOut) = [false, false, false] ∧
+    (shareVals 125 (ofNat 100) [83, 42, 0]).getLast? = some (-1 / 140737488355328 : Rat) := by
+  decide +kernel
+
+theorem prefix_not_holds_negative_zero : Admissible [83, 42, 0] ∧ ¬ Holds [83, 42, 0] (floatShares [83, 42, 0]) := by
+  refine ⟨⟨by decide, by decide, by decide, by decide⟩, fun h => ?_⟩
+  have := h.nonneg ⟨true, 0⟩ (by rw [prefix_witness_last_share_negative_zero.1]; simp)
+  simp at this
+
+/-- witness 2 (reproduced on the real generator): weights 1,1,1,0 give the zero-weight last backend 0.01% -/
+theorem prefix_witness_zero_weight_last_gets_remainder :
+    floatShares [1, 1, 1, 0] = [⟨false, 3333⟩, ⟨false, 3333⟩, ⟨false, 3333⟩, ⟨false, 1⟩] ∧
+    (floatShares [1, 1, 1, 0]).map Dec2.render = ["33.33", "33.33", "33.33", "0.01"] := by
+  decide +kernel
+
+theorem prefix_not_holds_zero_weight_last : Admissible [1, 1, 1, 0] ∧ ¬ Holds [1, 1, 1, 0] (floatShares [1, 1, 1, 0]) := by
+  refine ⟨⟨by decide, by decide, by decide, by decide⟩, fun h => ?_⟩
+  have := h.zero 3 (by decide) rfl
+  rw [prefix_witness_zero_weight_last_gets_remainder.1] at this
+  simp at this
+
+/-- 23/125 = 18.40% exactly; float64 `Floor` yields 18.39 (still within the 0.01 tolerance) -/
+theorem prefix_witness_float_floor_one_low :
+    (fmt2 (percentOf 23 125)).render = "18.39" ∧ 10000 * 23 / 125 = 1840 := by decide +kernel
+
 
 end NGF.SplitClients
